@@ -252,11 +252,23 @@ func C07(c *Case) *Result {
 			res.Faults["src.eof"]++
 		}
 		sizes := GenPartition(t, 4*cfg.BlockSize, cfg.BlockSize)
+		// skipped-block outcomes: decode a block range in a quarter of the cases (whole
+		// batches of skipped blocks included)
+		from, to := 0, 0
+		if t.Intn(4) == 0 {
+			from = 1 + t.Intn(nblocks+2)
+			to = from + t.Intn(nblocks+3)
+			res.Probes["decode.with.block.range"]++
+			if from > cfg.DecJobs {
+				res.Probes["decode.batch.all.skipped"]++
+			}
+		}
+		res.Render["range"] = []int{from, to}
 
 		var missed string
 		s := sim.Run(t, sim.Options{Hooks: hooks, KeepTrace: c.KeepTrace}, func(env *sim.Env) {
 			src := sim.NewSimSource(env.S, "in", stream)
-			rd, err := NewReader(ReaderSpec{Jobs: cfg.DecJobs, Headerless: cfg.Headerless, Cfg: cfg, OrigSize: cfg.HintValue, RBuf: cfg.RBuf}, src)
+			rd, err := NewReader(ReaderSpec{Jobs: cfg.DecJobs, Headerless: cfg.Headerless, Cfg: cfg, OrigSize: cfg.HintValue, RBuf: cfg.RBuf, From: from, To: to}, src)
 			if err != nil {
 				missed = "reader constructor failed: " + err.Error()
 				return
